@@ -241,6 +241,17 @@ fn damage_sure(src: &mut Src, case: &Case) -> Option<(String, &'static str, Scop
                     return Some((ins(st.end, &format!(" {}=\"u{}v\"", decl, junk)), "malformed_reference_in_namespace_declaration", Scope::Both));
                 }
             }
+            // third form (drawn last): a predefined entity named in another case — entity names are
+            // case-sensitive, &AMP; is a reference to an undeclared entity
+            if src.ratio(1, 5) {
+                let e = ["&AMP;", "&Lt;", "&GT;", "&Quot;", "&APOS;", "&aMp;"][src.choice(6)];
+                if src.bool() {
+                    if let Some(v) = pick_span(src, spans, |s| matches!(s.kind, ItemKind::AttrValue(_))) {
+                        return Some((ins(v.start, e), "predefined_entity_name_in_another_case", Scope::Both));
+                    }
+                }
+                return Some((ins(at, e), "predefined_entity_name_in_another_case", Scope::Both));
+            }
             Some((ins(at, &w), "raw_markup_char_or_malformed_reference", Scope::Both))
         }
         12 => {
@@ -396,7 +407,7 @@ impl Property for C03 {
         "C03"
     }
     fn rule(&self) -> &'static str {
-        "five generators: (bytes-encoded) byte order marks / encoding labels from a catalogue + a generated document encoded as UTF-8/16/32 or single bytes, cut anywhere, fed to parse_bytes; (history) 2-6 inputs through ONE Xot (well-formed text, catalogue edits, text cut while the root is open, probes using a prefix declared only in an earlier input, a plain no-namespace probe): the verdict and the reading may not depend on earlier inputs; (garbage) random concatenations of XML token pieces, raw bytes and arbitrary Unicode fed to parse, parse_with_span_info, parse_fragment and parse_bytes; (damage) a generated well-formed rendering (confirmed accepted first) with ONE catalogue edit that makes it ill-formed by construction (mismatched/missing/stray tags, truncation inside markup, second root, top-level text, attribute duplicated as written or via an alias prefix, prefix declared twice, undeclared prefixes, raw '<' / '&', malformed references, references to non-Chars, '--' in comments, malformed PIs, unterminated comment/PI/CDATA, DOCTYPE, version != 1.0, duplicate xml:id); oracle: never a panic; damaged text must be rejected by every entry point for which the edit is ill-formed; whatever is accepted must satisfy the C04 structural invariants, validate_well_formed_document (parse), serialise, reparse and be deep_equal. Non-trivial = (bytes-encoded) a mark, a label or a non-UTF-8 payload is present, (history) a probe ran after an input that failed with declaring elements still open, (damage) the undamaged text was accepted (and must itself be a sound tree) and the edit applied, (garbage) the input contains at least one start tag. Distinct by hash of the input."
+        "five generators: (bytes-encoded) byte order marks / encoding labels from a catalogue + a generated document encoded as UTF-8/16/32 or single bytes, cut anywhere, fed to parse_bytes; (history) 2-6 inputs through ONE Xot (well-formed text, catalogue edits, text cut while the root is open, probes using a prefix declared only in an earlier input, a plain no-namespace probe): the verdict and the reading may not depend on earlier inputs; (garbage) random concatenations of XML token pieces, raw bytes and arbitrary Unicode fed to parse, parse_with_span_info, parse_fragment and parse_bytes; (damage) a generated well-formed rendering (confirmed accepted first) with ONE catalogue edit that makes it ill-formed by construction (mismatched/missing/stray tags, truncation inside markup, second root, top-level text, attribute duplicated as written or via an alias prefix, prefix declared twice, undeclared prefixes, raw '<' / '&', malformed references, predefined entity names in another case, references to non-Chars, '--' in comments, malformed PIs, unterminated comment/PI/CDATA, DOCTYPE, version != 1.0, duplicate xml:id); oracle: never a panic; damaged text must be rejected by every entry point for which the edit is ill-formed; whatever is accepted must satisfy the C04 structural invariants, validate_well_formed_document (parse), serialise, reparse and be deep_equal. Non-trivial = (bytes-encoded) a mark, a label or a non-UTF-8 payload is present, (history) a probe ran after an input that failed with declaring elements still open, (damage) the undamaged text was accepted (and must itself be a sound tree) and the edit applied, (garbage) the input contains at least one start tag. Distinct by hash of the input."
     }
     fn plans(&self, tier: Tier) -> Vec<Plan> {
         let mk = |name: &'static str, cases, variant, max_len| Plan {
